@@ -985,6 +985,51 @@ def check_owner_variants(case, R):
         except Exception:  # noqa: BLE001 - writing into a detached object is not part of the statement's API surface
             pass
         R.check({k: _acc(t, k) for k in ACC} == src, "detach:writes-reach-original", lambda: f"{what}: writing into {nm_}{L}.detach() changed the tree", f"{kl}:detach-not-independent:{nm_}")
+    # a detached view detached AGAIN is again an independent copy (writing into one does not reach the other)
+    for nm_, v in views[:6] + [("node", t.node(n - 1))]:
+        okd, d1 = R.impl(f"{nm_}.detach", v.detach)
+        if not okd:
+            continue
+        okd2, d2 = R.impl(f"{nm_}.detach().detach()", d1.detach)
+        if not okd2:
+            continue
+        rdx = (lambda o: [_num(o.x), _num(o.r)]) if nm_ == "node" else (lambda o: [_acc(o, "x"), _acc(o, "r")])
+        before1 = rdx(d1)
+        R.check(d2 is not d1 and rdx(d2) == before1, "detach:content", lambda: f"{what} {nm_}.detach().detach(): {rdx(d2)} vs {before1}", f"{kl}:detach-twice-content:{nm_}")
+        try:
+            if nm_ == "node":
+                d2.x, d2.r = 123.5, 45.25
+            else:
+                for arr in d2.attach.ndata.values():
+                    if arr.dtype.kind == "f":
+                        arr += 1
+        except Exception:  # noqa: BLE001
+            continue
+        R.check(rdx(d1) == before1, "detach:not-independent", lambda: f"{what}: writing into {nm_}.detach().detach() changed the first detached copy", f"{kl}:detach-twice-not-independent:{nm_}")
+    # a collection of compartments drawn from SEVERAL owners (segments of all branches, detached segments): each member reports its own nodes
+    from swcgeom.core.compartment import Compartments
+
+    members, want_rows = [], []
+    if okb:
+        for b in brs:
+            L = [int(i) for i in b.origin_id().tolist()]
+            oks, segs = R.impl("Branch.get_segments", b.get_segments)
+            if oks:
+                for sg, (a_, c_) in zip(segs, zip(L, L[1:])):
+                    members.append(sg)
+                    want_rows.append([[src[k][a_] for k in ("x", "y", "z", "r")], [src[k][c_] for k in ("x", "y", "z", "r")]])
+        for sg, w_ in list(zip(members, want_rows))[:3]:
+            okd, dsg = R.impl("segment.detach", sg.detach)
+            if okd:
+                members.append(dsg)
+                want_rows.append(w_)
+    if members:
+        okc, coll = R.impl("Compartments(list)", Compartments, members)
+        if okc:
+            okx, got_rows = R.impl("Compartments.xyzr", lambda: [[[_num(v) for v in row] for row in m_] for m_ in coll.xyzr().tolist()])
+            if okx:
+                R.check(got_rows == want_rows, "compartments:collection", lambda: f"{what}: a collection of {len(members)} segments from {len(brs)} branches (+ detached ones) reports "
+                        f"{got_rows[:3]}..., members are {want_rows[:3]}...", f"{kl}:compartments-collection")
     R.outcome(variant, n)
 
 
